@@ -10,7 +10,7 @@ import itertools
 import numpy as np
 
 from checks import specgen as SG
-from checks.common import hash_tag, relayout, xf_build, xf_names, canonical_probes
+from checks.common import hash_tag, relayout, xf_build, xf_names, canonical_probes, hermitian_exact_zero
 from qmc import gen as G
 from qmc import oracle as O
 from qmc.loader import load
@@ -92,6 +92,11 @@ def cases(tier, seed):
     for (m, n) in ((4, 3), (6, 5), (3, 4), (5, 6), (5, 3), (3, 5)):
         for pi_ in range(16):
             out.append({"key": f"full/probe/{m}x{n}/p={pi_}", "entry": "classical_qsvd_full", "m": m, "n": n, "vals": None, "kU": "mask", "kV": "mask", "row": 0, "R": None, "probe": pi_})
+    # exactly Hermitian inputs with one EXACT zero eigenvalue (nullity 1, simple non-zero singular values for the Gram kinds)
+    for n_ in (8, 9, 12, 32, 33):
+        for where in ("last", "first", "diag"):
+            out.append({"key": f"full/exactzero/n={n_}/{where}", "entry": "classical_qsvd_full", "m": n_, "n": n_, "vals": None, "kU": "mask", "kV": "mask", "row": 0, "R": None, "ez": where})
+            out.append({"key": f"trunc/exactzero/n={n_}/{where}/R={n_ - 1}", "entry": "classical_qsvd", "m": n_, "n": n_, "vals": None, "kU": "mask", "kV": "mask", "row": 0, "R": n_ - 1, "ez": where})
     # enumerated list of larger shapes, simple spectra
     for (m, n) in ((9, 7), (7, 9), (12, 12), (17, 5), (5, 17), (33, 2), (2, 33)):
         p = min(m, n)
@@ -107,8 +112,10 @@ def run_case(case, seed):
     m, n, vals, R = case["m"], case["n"], case["vals"], case["R"]
     p = min(m, n)
     fill = G.Fill(seed + 31 * case["row"], stream=hash_tag(f"{m}x{n}/{case['kU']}/{case['row']}"))
-    if case.get("mask") or case.get("xf") or case.get("probe") is not None:
-        if case.get("probe") is not None:
+    if case.get("mask") or case.get("xf") or case.get("probe") is not None or case.get("ez"):
+        if case.get("ez"):
+            A = hermitian_exact_zero(m, case["ez"], fill)
+        elif case.get("probe") is not None:
             A = fill.quat(m, n, bits=4, lo=-24, hi=24)
             pname, g = canonical_probes(max(m, n))[case["probe"]]
             if m > n:
